@@ -1,6 +1,7 @@
 import UralModel.Lemmas.C07Host
 import UralModel.Lemmas.C07Parser
 import UralModel.Lemmas.C07Bridge
+import UralModel.Lemmas.C07Canon
 /-!
 # C07 — hostname and LRU-stem helpers agree with the URL-level functions
 
@@ -509,6 +510,31 @@ theorem stems_agree_canon_of_reparse (sp : Str → Option (Str × Str)) (split5 
       = canonicalizedLruStems sp puny parse sa url := by
   rw [stems_of_reparse sp split5 sa _ _ hr]
   simp only [canonicalizedLruStems, hp, Option.map_some]
+
+/-- **`canonicalized_lru_stems(u)` = `lru_stems(canonicalize_url(u))`, no round-trip hypothesis**:
+with the modelled parser on both sides (`Py.parseUrl` for `canonicalize_url`, `Py.urlsplit` for
+`lru_stems`), the round trip is the one proved by the round-trip development
+(`Lemmas/UrlRoundTrip.lean`, `Lemmas/CanonRoundTrip.lean`) plus `ensureProtocol_of_scheme` (the
+canonical string already has a protocol).  Conditions: the decoder invents no delimiter
+(`PunyClean`), the netloc holds no bracket, the canonical netloc is not empty (reading: URLs with a
+host). -/
+theorem stems_agree_canon (sp : Str → Option (Str × Str)) (puny : Str → Str)
+    (hpc : Ural.CanonRoundTrip.PunyClean puny) (sa : Bool) (url : Str) (p : Parsed)
+    (hp : parseUrl (Canonicalize.cleanUrl url httpsStr) = some p)
+    (hb : '[' ∉ p.netloc ∧ ']' ∉ p.netloc)
+    (hn : (Canonicalize.canonParts puny false false p).netloc ≠ []) :
+    lruStemsOfUrl sp modelSplit5 sa (UrlParts.urlunsplit (Canonicalize.canonParts puny false false p))
+      = canonicalizedLruStems sp puny parseUrl sa url := by
+  obtain ⟨hr, hs⟩ := canon_reparse hpc url p hp hb hn
+  have hre : ReparseOk modelSplit5 (UrlParts.urlunsplit (Canonicalize.canonParts puny false false p))
+      (Canonicalize.canonParts puny false false p) := by
+    unfold ReparseOk
+    rw [hr, if_neg hs]
+  have := stems_agree_canon_of_reparse sp modelSplit5 puny parseUrl sa url p hp hre
+  rw [← this]
+  cases lruStemsOfUrl sp modelSplit5 sa (UrlParts.urlunsplit (Canonicalize.canonParts puny false false p)) with
+  | none => rfl
+  | some st => simp [minusScheme, hs]
 
 /-- **`fingerprinted_lru_stems(u, strip_suffix)` = `lru_stems(fingerprint_url(u, strip_suffix))`
 minus the scheme stem** (the fingerprint has no scheme), given the round trip of the result;
